@@ -59,7 +59,7 @@ def decodeRun (inCdata : Bool) (s : Str) : Option Str :=
 termination_by s.length
 decreasing_by
   · exact splitCdataEnd_length s c rest h
-  · have h1 := List.length_dropWhile_le (fun c => c != '<') s
+  · have h1 := (List.dropWhile_suffix (l := s) (fun c => c != '<')).length_le
     have h2 : (s.dropWhile (fun c => c != '<')).length ≠ 0 := by
       intro h0
       exact hr (by rw [List.isEmpty_iff, ← List.length_eq_zero_iff]; exact h0)
@@ -146,10 +146,11 @@ theorem runSliceAux_head (rest : List Token) (s : Str) (h : RunSpelled s rest) :
   cases rest with
   | nil => exact .inl rfl
   | cons b r =>
+    have hb := (h.toks b (by simp)).1
     cases b with
     | text t => exact .inr (.inr ⟨t, r, rfl⟩)
     | cdata t sp => exact .inr (.inl (by simp [runSliceAux, litCdataOpen]))
-    | _ => have := (h.toks _ (by simp)).1; simp [Token.isCharData] at this
+    | _ => simp [Token.isCharData] at hb
 
 theorem runValue_text_ok {t : StrSpan} {v : Str} (h : parseContentGo false t.start 0 t.text = .ok v) :
     parseText t.text = .ok v := parseContentGo_base h
@@ -209,6 +210,7 @@ theorem decodeRun_run {s : Str} : ∀ (run : List Token), RunSpelled s run →
           cases rest with
           | nil => simp [runSliceAux, runValue]
           | cons b r =>
+            have hb := (h.toks b (by simp)).1
             cases b with
             | cdata t' sp' =>
               have hopen : runSliceAux false (Token.cdata t' sp' :: r) =
@@ -228,25 +230,28 @@ theorem decodeRun_run {s : Str} : ∀ (run : List Token), RunSpelled s run →
             | text t' =>
               have := (h.adj.1 rfl).2.2 rfl
               simp [Token.isTextTok] at this
-            | _ => have := (h.toks _ (by simp)).1; simp [Token.isCharData] at this
+            | _ => simp [Token.isCharData] at hb
     | cdata t sp =>
       obtain ⟨_, _, hno⟩ := ha.2
       have hcd : ∀ (flagSlice : Str), flagSlice = runSliceAux true (Token.cdata t sp :: rest) →
           decodeRun true flagSlice = runValue (Token.cdata t sp :: rest) := by
         intro fs hfs
         subst hfs
-        rw [decodeRun]
         cases rest with
         | nil =>
-          simp only [runSliceAux, if_true, List.isEmpty_nil, List.nil_append, List.append_nil]
+          have e : runSliceAux true [Token.cdata t sp] = t.text := by simp [runSliceAux]
+          rw [e, decodeRun]
+          simp only [↓reduceIte]
           have hnone := splitCdataEnd_none t.text hno
           split
           · simp [runValue]
           · next c r hs => rw [hnone] at hs; cases hs
         | cons b r =>
-          simp only [runSliceAux, if_true, List.nil_append, List.isEmpty_cons, Bool.false_eq_true, if_false]
+          have e : runSliceAux true (Token.cdata t sp :: b :: r) =
+              t.text ++ litCdataClose ++ runSliceAux false (b :: r) := by simp [runSliceAux]
+          rw [e, decodeRun]
+          simp only [↓reduceIte]
           have hsome := splitCdataEnd_close t.text (runSliceAux false (b :: r)) hno
-          rw [← List.append_assoc]
           split
           · next hs => rw [hsome] at hs; cases hs
           · next c r' hs =>
@@ -294,9 +299,10 @@ theorem decodeRun_runSlice {s : Str} {run : List Token} (h : RunSpelled s run) :
   cases run with
   | nil => exact h1
   | cons a rest =>
+    have ha := (h.toks a (by simp)).1
     cases a with
     | cdata t sp => exact h2 t sp rest rfl
     | text t => simpa [startsInCdata, runSlice, runSliceAux] using h1
-    | _ => have := (h.toks _ (by simp)).1; simp [Token.isCharData] at this
+    | _ => simp [Token.isCharData] at ha
 
 end XotModel
